@@ -67,11 +67,13 @@ Hs(b) == [h |-> b]
 \*   "phash": ToKey(PrefixedHashBuilder, raw, parts...)                  -> raw ++ Enc(SHA3(Cat(parts)))
 \*   "rlp":   ToKey(RLPBuilder, parts...)                                -> Cat(parts)
 \*   "raw":   ToKey(RawBuilder, parts...)                                -> RawCat(parts)
+\*   "tkey":  scoredb.ToKey(raw[1], parts...), extended with scoredb.AppendKeys -> raw ++ Cat(parts)   (unhashed)
 Out(kb) ==
   CASE kb.type = "hash"  -> <<Hs(kb.raw \o Cat(kb.parts))>>
     [] kb.type = "phash" -> <<Lit(kb.raw \o <<160>>), Hs(Cat(kb.parts))>>   \* Enc of 32 hash bytes = 0xA0 ++ hash
     [] kb.type = "rlp"   -> <<Lit(Cat(kb.parts))>>
     [] kb.type = "raw"   -> <<Lit(RawCat(kb.parts))>>
+    [] kb.type = "tkey"  -> <<Lit(kb.raw \o Cat(kb.parts))>>       \* scoredb.ToKey(t, parts...) / scoredb.AppendKeys: raw type byte(s) ++ Cat
 
 \* minimal two's-complement big-endian form of a small non-negative integer (intconv.Int64ToBytes)
 IntPart(i) == IF i < 128 THEN <<i>>
